@@ -246,6 +246,33 @@ theorem sign_verifies (id bits : Nat) (body : Bytes) (nq na nn ne : Nat) (types 
   rfl
 
 
+
+/-- **sign_verifies_any**: the same without assumptions on the counts — whatever `Sign` returns (it refuses more than
+    65535 octets) has few enough records for `Verify`'s 16-bit arithmetic: every message `Sign` accepts verifies -/
+theorem sign_verifies_any (id bits : Nat) (body : Bytes) (nq na nn ne : Nat) (types : List Nat)
+    (hw : Walks body nq na nn ne types)
+    (f : SigFields) (ls : List Bytes) (hls : WireNameOK ls) (hs : f.signer = presentOf ls)
+    (hexp : f.expire < 4294967296) (hinc : f.incept < 4294967296)
+    (sg buf inp : Bytes) (hb : sigSignBuf (hdr id bits nq na nn ne ++ body) f sg = some buf)
+    (hi : sigSignInput (hdr id bits nq na nn ne ++ body) f = some inp)
+    (check : Bytes → Bytes → Bool) (hc : check inp sg = true)
+    (keyName : Bytes) (hk : lowerAll keyName = lowerAll f.signer)
+    (now : Nat) (hn1 : f.incept ≤ now) (hn2 : now ≤ f.expire) :
+    sigVerify buf keyName now check = .accepted := by
+  obtain ⟨c1, c2⟩ := walks_counts body nq na nn ne types hw
+  have hlen : body.length < 65535 := by
+    unfold sigSignBuf at hb
+    split at hb
+    · simp only at hb
+      split at hb
+      · cases hb
+      · rename_i hle
+        simp only [List.length_append, hdr_len] at hle
+        omega
+    · cases hb
+  exact sign_verifies id bits body nq na nn ne types hw (by omega) (by omega) f ls hls hs hexp hinc sg buf inp hb hi check hc
+    keyName hk now hn1 hn2
+
 /-- **sign_verifies_plain**: the statement for the plain packer of the model (`Compress` off): every message of
     questions and records of any generated type with fitting field values -/
 theorem sign_verifies_plain (id bits : Nat) (qs : List QSpec) (an ns ex : List RRItem)
